@@ -145,7 +145,7 @@ def q2J (g : Graph) (t : Option Int) (nb : Option (List Node)) : J :=
       [("99", J.obj [("hasnode", jb (g.hasNode 99 t)), ("hasnode_unhashable", jn 0)])]
     let pairs : List (String × J) := g.nodeList.flatMap (fun a => g.nodeList.filterMap (fun b =>
       let v := g.numberOfInteractions2 a b t
-      if v != 0 then some (toString a ++ "," ++ toString b, jnats [v, v]) else none))
+      if v != 0 then some (toString a ++ "," ++ toString b, jnats (if d then [v, v, v, v] else [v, v])) else none))
     .obj (base ++
       [("nodes", sl nodesT), ("nodes_iter", sl nodesT), ("f_nodes", sl nodesT),
        ("nodes_data", .arr ((sortByKey (fun (p : Node × Nat) => [(p.1 : Int)]) (g.nodes.filter (fun p => nodesT.contains p.1))).map (fun p => jnats [p.1, p.2]))),
